@@ -124,6 +124,7 @@ class St:
         s.pc = []
         s.old = None     # entry snapshot (for old())
         s.unbound = set()  # locals that may be unbound
+        s.calls = ()       # names of the contracted callees applied so far on this path (for `calls_exactly`)
 
     def clone(s):
         t = St()
@@ -134,6 +135,7 @@ class St:
         t.pc = list(s.pc)
         t.old = s.old
         t.unbound = set(s.unbound)
+        t.calls = s.calls
         return t
 
 
@@ -2026,6 +2028,9 @@ class VCGen:
 
     def exit_normal(s, st, v, t, line):
         c = s.cur
+        if c.get('calls_exactly') is not None and not c.get('_inline'):
+            # a wiring function: on every path that returns normally, exactly these contracted callees were called, in this order
+            s.oblige(st, 'calls-exactly', BoolVal(tuple(c['calls_exactly']) == tuple(st.calls)), line, 'post')
         rt = c.get('result')
         if rt is not None:
             v, t = s.coerce(v, t, rt)
@@ -2717,6 +2722,7 @@ class VCGen:
 
     def apply_contract(s, q, recv, c, st, line):
         k = s.contracts[q]
+        st.calls = st.calls + (q.split('.', 1)[1],)
         params = list(k['params'].items())
         ghosts = k.get('ghost_params', {})
         args = []
